@@ -160,6 +160,11 @@ def check_property(pid, tier, seed):
                 if p not in JUDGE_PROPS[pid]: continue
                 k = checklib.match_known(known, pid, h, rule)
                 agrees = r.model_error is None and (i not in divset or divset[i] > ln)
+                if k is not None and rule in k.get("gaveup_rules", []):
+                    # attributed only where the mirrored model says the same thing happened (it gives up exactly where
+                    # `_get_belt_pattern` raises)
+                    ml = r.model[i] if i < len(r.model) else None
+                    agrees = agrees and ml is not None and ln < len(ml) and ml[ln] == "GAVEUP"
                 if k is not None and agrees:
                     known_hits[k["id"]] = known_hits.get(k["id"], 0) + 1
                 else:
@@ -226,6 +231,9 @@ def check_property(pid, tier, seed):
             else:
                 h, ops = checklib.read_ops_file(wpath)
                 fails = store_family.judge_fails(pid, h, ops, k.get("rule"))
+                if not fails and k.get("witness2"):
+                    h2, ops2 = checklib.read_ops_file(os.path.join(VERIF, k["witness2"]))
+                    fails = store_family.judge_fails(pid, h2, ops2, k.get("rule"))
         except Exception as e:
             say(f"[check {pid}] cannot replay witness of {k['id']}: {e}"); fails = None
         if k["status"] == "known":
